@@ -12,8 +12,8 @@ if git apply "SEED_$which.diff" 2>/tmp/cs_apply.$$; then r_apply=OK; fi
 if go build ./... 2>/tmp/cs_build.$$; then r_build=OK; fi
 if eval "$demo" >/tmp/cs_patched.$$ 2>&1; then r_demo_patched=PASS; else r_demo_patched=FAIL; fi
 pkgs=$(git diff --name-only | xargs -n1 dirname | sort -u | sed 's|^|./|;s|$|/...|' | tr '\n' ' ')
-if go test -count=1 -skip 'TestSeed|SeedA|SeedB' $pkgs >/tmp/cs_pkgs.$$ 2>&1; then r_pkgs=PASS; fi
-go test -count=1 ./tests/integration_tests/... >/tmp/cs_integ.$$ 2>&1
+if go test -count=1 -skip 'TestSeed|SeedA|SeedB|Seed.Demo' $pkgs >/tmp/cs_pkgs.$$ 2>&1; then r_pkgs=PASS; fi
+go test -count=1 -skip "TestSeed" ./tests/integration_tests/... >/tmp/cs_integ.$$ 2>&1
 bad=$(grep -E '^\s+--- FAIL' /tmp/cs_integ.$$ | grep -v 'TestSeal ' | wc -l)
 if [ "$bad" = 0 ]; then r_integ=PASS; else r_integ="FAIL($(grep -E '^\s+--- FAIL' /tmp/cs_integ.$$ | grep -v 'TestSeal ' | head -2 | tr -s ' ' | tr '\n' ';'))"; fi
 git checkout -q -- .
